@@ -55,6 +55,7 @@ type c05world struct {
 	startAt   time.Duration
 	ticksSeen int
 	wraps     int
+	diverged  map[string]bool
 }
 
 func (w *c05world) sure(s *c05sub) bool {
@@ -147,7 +148,13 @@ func (w *c05world) holdersOf(v string, not int) (sure, maybe []int) {
 func (w *c05world) given(id int, v, how string) {
 	c := w.c
 	if _, ok := w.uidx[v]; !ok {
-		return // not a usable unit: C01's business, not counted here
+		// not a usable unit: C01's business, not counted here; whatever the
+		// subscriber held before has been replaced by it
+		if s := w.subs[id]; s != nil && s.val != "" {
+			w.unitEv[s.val] = "replaced"
+			delete(w.subs, id)
+		}
+		return
 	}
 	sure, maybe := w.holdersOf(v, id)
 	for _, t := range sure {
@@ -202,8 +209,16 @@ func (w *c05world) refused(missing []string, how string, err error) {
 		names = append(names, e)
 	}
 	sort.Strings(names)
+	// the fingerprint names the most telling history among the unobtainable units
+	primary := "never-used"
+	for _, e := range []string{"release-failed", "lost", "replaced", "expired", "released", "held"} {
+		if evs[e] {
+			primary = e
+			break
+		}
+	}
 	cat := "leak"
-	if len(names) == 1 && names[0] == "never-used" {
+	if primary == "never-used" {
 		cat = "phantom-exhaustion"
 	}
 	sure, maybe := w.counts()
@@ -211,7 +226,7 @@ func (w *c05world) refused(missing []string, how string, err error) {
 	if len(show) > 6 {
 		show = show[:6]
 	}
-	w.c.Fail(cat, fmt.Sprintf("%s/%s/%s", cat, w.label, strings.Join(names, "+")),
+	w.c.Fail(cat, fmt.Sprintf("%s/%s/%s", cat, w.label, primary),
 		"%s: %s was refused (%v) although %d of %d usable units are held by nobody (live holders: %d certain, %d possible; model epoch +%d, grace %d); unobtainable units e.g. %v with histories %v",
 		w.label, how, err, len(missing), len(w.units), sure, maybe, w.epoch, w.grace, show, names)
 }
@@ -291,7 +306,10 @@ func (w *c05world) audit(after string) {
 				c.Fail("reclaimed", fmt.Sprintf("reclaimed/%s/lookup-lost/%s/after-%s", w.label, s.ev, after),
 					"%s: subscriber %d holds %s as a live lease (last renewal at model epoch +%d, now +%d, grace %d; last event %s) but Lookup no longer answers after %s",
 					w.label, id, s.val, s.lo, w.epoch, w.grace, s.ev, after)
-				delete(w.subs, id)
+				// what became of the unit is open from here on (it may come back, e.g.
+				// from a store record on reload): no further obligations, counts as possible
+				s.unsureRel = true
+				w.unitEv[s.val] = "lost"
 				continue
 			}
 			if v != s.val {
@@ -308,7 +326,13 @@ func (w *c05world) audit(after string) {
 	}
 	sure, maybe := w.counts()
 	for _, st := range d.Stats() {
+		// only the first divergence of a counter in a run is causal ("after-<op>");
+		// once it has drifted every later reading is a consequence
+		if w.diverged[st.Source] {
+			continue
+		}
 		if st.Alloc < sure || st.Alloc > maybe {
+			w.diverged[st.Source] = true
 			dir := "high"
 			if st.Alloc < sure {
 				dir = "low"
@@ -372,6 +396,9 @@ func c05Gen(r *sim.Rand, tier string) *sim.Case {
 	}
 	c01Knobs(r, cs)
 	cs.Knobs["geo"] = int64(r.Weighted(12, 10, 8, 8, 5, 5, 3, 1, 1, 1, 1, 1, 1))
+	// C05 is not quantified over schedules: watch notifications of local writes are
+	// either absent or delivered in write order, and every operation runs to quiescence
+	cs.Knobs["echo"] = int64(r.N(2))
 	cs.Knobs["skipmax"] = int64(sim.Pick(r, 1, 8, 64))
 	caps := pdStaticCaps(cs.Variant)
 	nsub := int(cs.Knobs["nsub"])
@@ -419,7 +446,7 @@ func c05Run(c *sim.Ctx) {
 	if err != nil {
 		panic(fmt.Sprintf("c05: cannot build %s: %v", cs.Variant, err))
 	}
-	w := &c05world{c: c, d: d, caps: d.Caps(), units: d.Units(), uidx: map[string]int{}, unitEv: map[string]string{}, subs: map[int]*c05sub{},
+	w := &c05world{c: c, d: d, caps: d.Caps(), units: d.Units(), uidx: map[string]int{}, unitEv: map[string]string{}, subs: map[int]*c05sub{}, diverged: map[string]bool{},
 		nsub: int(cs.Knob("nsub", 3)), nextID: 100, grace: int(cs.Knob("grace", 1))}
 	if w.nsub < 1 {
 		w.nsub = 1
@@ -434,7 +461,7 @@ func c05Run(c *sim.Ctx) {
 		w.uidx[u] = i
 		w.unitEv[u] = "never-used"
 	}
-	w.label = pdVariantLabel(c, d)
+	w.label = pdVariantLabel(c, d, true, false)
 	w.startAt = c.S.Now()
 	defer func() {
 		d.Close()
@@ -555,6 +582,7 @@ func c05Run(c *sim.Ctx) {
 			if !w.caps.Tick {
 				continue
 			}
+			after = "adv"
 			n := int(op.Arg(0))
 			if n < 1 {
 				n = 1
